@@ -9,9 +9,13 @@ META = {
              "accepts a query iff it is duplicate-free and has the cached id sets; every call therefore receives a "
              "duplicate-free, valid, complete, minimal plan for ITS OWN inputs/outputs or exactly the error a call on a "
              "cold cache gets (with single-producer graphs: a cache hit happens only where a cold call also succeeds); "
-             "every step terminates. Observed at run time only (tests, not proofs): 2-8 threads calling run on one "
-             "shared graph with alternating input/output sets and per-call / global thread pools return exactly what "
-             "each call returns alone; no deadlock, poisoning or panic."),
+             "every step terminates. Observed at run time only (tests, not proofs; they can miss a narrow race): 2-8 "
+             "threads calling run on one shared graph with alternating input/output sets and per-call / global thread pools, "
+             "and a stress part (8 threads released together by a barrier, 4000 calls each in quick / 12000 in thorough, 8 "
+             "request shapes incl. intermediates as inputs, permuted keys and partial_run, each thread mostly repeating its "
+             "own shape so that almost every call replaces the plan another thread just cached) return exactly what each "
+             "call returns alone; no deadlock, poisoning or panic. A lost-atomicity change of get_cached_plan "
+             "(check / store / fetch under separate locks, seeded/C22-B) is reported by every stress line tried."),
     "note": ("Mutex atomicity, Arc hand-off, thread scheduling, rayon and the per-run BufferPool are run-time behaviour and "
              "are not modelled; that equal plans / any valid plan give equal outputs is C02's theorem (exec group). "
              "The weight cache is read-only after load and not modelled. F12 fixed in the tree the model describes. "
@@ -29,7 +33,10 @@ def main(ctx):
     ctx.rule = ("per case one random closed graph (2-4 inputs, 2-7 operators) and 3-8 calls alternating between 2-3 input/output "
                 "sets, their permutations, duplicate-id and missing-input variants; the calls run (1) in sequence on one graph "
                 "[compared with the model of the cache: executed operator order or error], (2) each alone on a fresh graph, "
-                "(3) from 2-8 threads on one shared graph, 6 rounds, results compared with (2). non-trivial = every case")
+                "(3) from 2-8 threads on one shared graph, 6 rounds, results compared with (2). Stress cases (4 quick / 12 "
+                "thorough): one graph of 8-12 operators, 8 request shapes, 8 threads x 4000 (12000) calls behind a start "
+                "barrier, every call under catch_unwind and compared with its alone-run reference; failing calls are "
+                "reported as (thread, iteration, shape) in q_fail. non-trivial = every case")
     ctx.trusted += ["run-time only: std::sync::Mutex, Arc, rayon thread pools, OS scheduling (observed, not modelled)",
                     "hook rten::verif::planner::TestGraph::run = Graph::run (what Model::run calls)"]
     ctx.audit(GROUP)
@@ -38,7 +45,7 @@ def main(ctx):
     if not ok:
         raise vf.CheckerBroken("model does not build: " + out[-1500:])
     bindir = ctx.harness(GROUP, profile="release", bins=["c22"])
-    cases = ctx.gen_exec(bindir, "c22", ctx.n(400, 6000), inputs=ctx.replay_inputs())
+    cases = ctx.gen_exec(bindir, "c22", ctx.n(200, 6000), inputs=ctx.replay_inputs())
     ctx.correspond("plan_cache", GROUP, REQ, cases, show="show22", agree="agree22", prop_ok="prop_ok22",
                    shard=ctx.n(100, 300), fn_name="Planner.PlanCache.get_cached_plan vs Graph::run (plan cache)")
     if failed and not ctx.violations:
